@@ -45,6 +45,7 @@ type Task struct {
 	prio     int
 	idleOnly bool // parked in Quiesce: only resumed when nothing else can run
 	yielded  bool // called Gosched: de-prioritised until somebody else ran
+	spins    int  // consecutive Gosched calls
 	gid      uint64
 	run      *Run
 	harness  bool // created by the harness (r.Go), not by library code
@@ -85,21 +86,25 @@ type Run struct {
 	lowPrio   int
 
 	// outcome
-	Stuck     bool // horizon reached with the root task still not finished
-	StepLimit bool
-	violClass string
-	violMsg   string
-	nontriv   bool
-	faults    map[string]int
-	probes    map[string]int
-	schedPts  int // scheduling decisions with >= 2 candidates
-	adopted   int
-	RandMode  int // 0 seeded, 1 min, 2 max
-	randCtr   int64
-	bubbleMsg string
-	endTime   time.Duration
-	Tier      string
-	quiet     bool
+	Stuck        bool // horizon reached with the root task still not finished
+	StepLimit    bool
+	violClass    string
+	violMsg      string
+	nontriv      bool
+	faults       map[string]int
+	probes       map[string]int
+	schedPts     int // scheduling decisions with >= 2 candidates
+	adopted      int
+	RandMode     int // 0 seeded, 1 min, 2 max
+	randCtr      int64
+	bubbleMsg    string
+	endTime      time.Duration
+	finished     bool
+	inconclusive int
+	// Data is free for the harness (e.g. a history handed from Run to Post).
+	Data  any
+	Tier  string
+	quiet bool
 }
 
 var cur atomic.Pointer[Run]
@@ -175,7 +180,15 @@ func (r *Run) Seq() int64 {
 	return n
 }
 
-func (r *Run) nowLocked() time.Duration { return time.Since(r.start) }
+func (r *Run) nowLocked() time.Duration {
+	if r.finished {
+		return r.endTime
+	}
+	return time.Since(r.start)
+}
+
+// Inconclusive counts a check that could not be decided (never reported as a violation).
+func (r *Run) Inconclusive() { r.inconclusive++ }
 
 // Now is the virtual time elapsed since the run started.
 func (r *Run) Now() time.Duration { return time.Since(r.start) }
@@ -191,6 +204,9 @@ func (r *Run) park(t *Task, site string) {
 	r.mu.Lock()
 	t.state = stParked
 	t.site = site
+	if site != "gosched" && site != "atomic" {
+		t.spins = 0
+	}
 	r.mu.Unlock()
 	r.notify()
 	<-t.resume
@@ -237,7 +253,18 @@ func Gosched() {
 	}
 	r.mu.Lock()
 	t.yielded = true
+	t.spins++
+	spins := t.spins
 	r.mu.Unlock()
+	if spins > 2 {
+		// a spinning task consumes time: without this the simulated clock
+		// could never advance to wake the sleeping task it is waiting for
+		d := time.Millisecond
+		if spins < 13 {
+			d = time.Microsecond << (spins - 3)
+		}
+		time.Sleep(d)
+	}
 	r.park(t, "gosched")
 }
 
